@@ -162,6 +162,21 @@ func (d *dataWorld) populate(tp *simkit.Tape, stats map[string]int) bool {
 			return false
 		}
 	}
+	// rows of the linked child table for some keys (placed by the parent's rule)
+	if d.child != "" {
+		for i := 0; i < 6; i++ {
+			row := d.newRow(tp, keys[tp.Choose(len(keys))])
+			sql := insertSQL(d.child, [][]sqlmini.Value{row}, false)
+			o := d.run(sql)
+			d.r.Logf("%q -> %s", sql, errText(o.err))
+			if o.err == nil {
+				d.ref.Get(d.rule.db, d.child).Rows = append(d.ref.Get(d.rule.db, d.child).Rows, append([]sqlmini.Value{}, row...))
+			} else if !o.refused {
+				d.fail("harness", "populating %s: %v", d.child, o.err)
+				return false
+			}
+		}
+	}
 	// the global and the unsharded table
 	for i := 0; i < 4; i++ {
 		d.nextID++
@@ -308,6 +323,39 @@ func (d *dataWorld) condition(tp *simkit.Tape, depth int) string {
 	}
 }
 
+// qualified is condition with every column qualified by the sharded table's name (for statements naming two tables).
+func (d *dataWorld) qualified(tp *simkit.Tape, depth int) string {
+	c := d.condition(tp, depth)
+	t := d.rule.table
+	for _, col := range []string{"id", "g", "v", "name", "ct"} {
+		// qualify bare column names (not already qualified, not inside string literals: the literals of the universe never contain these words followed by an operator)
+		c = qualifyCol(c, col, t)
+	}
+	return c
+}
+
+func qualifyCol(c, col, t string) string {
+	var sb strings.Builder
+	inStr := false
+	for i := 0; i < len(c); i++ {
+		ch := c[i]
+		if ch == '\'' {
+			inStr = !inStr
+		}
+		if !inStr && strings.HasPrefix(c[i:], col) && (i == 0 || !isWordByte(c[i-1]) && c[i-1] != '.') && (i+len(col) == len(c) || !isWordByte(c[i+len(col)])) {
+			sb.WriteString(t + "." + col)
+			i += len(col) - 1
+			continue
+		}
+		sb.WriteByte(ch)
+	}
+	return sb.String()
+}
+
+func isWordByte(b byte) bool {
+	return b == '_' || (b >= 'a' && b <= 'z') || (b >= 'A' && b <= 'Z') || (b >= '0' && b <= '9')
+}
+
 // holders: physical tables of the sharded table holding at least one row that satisfies the condition.
 func (d *dataWorld) holders(cond string) ([]string, error) {
 	var out []string
@@ -397,11 +445,15 @@ func (d *dataWorld) opSelect(tp *simkit.Tape, stats map[string]int) {
 	rule := d.rule
 	cond := d.condition(tp, 3)
 	t := rule.table
+	pickAhead := tp.Choose(15)
+	if pickAhead >= 13 {
+		cond = d.qualified(tp, 2) // every column carries its table: the statement names two tables with the same columns
+	}
 	var sql string
 	ordered := 0 // number of leading result columns that form the ORDER BY key (0: unordered)
 	desc := []bool{}
 	shape := ""
-	pick := tp.Choose(13)
+	pick := pickAhead
 	if pick == 4 && simkit.Params["partition"] == "strict" {
 		pick = 5 // the strict partition leaves out the statements of known findings C02-F1 and C02-F2
 	}
@@ -443,6 +495,25 @@ func (d *dataWorld) opSelect(tp *simkit.Tape, stats map[string]int) {
 		d1, d2 := tp.Chance(1, 2), tp.Chance(1, 2)
 		sql = fmt.Sprintf("select g, v, id from %s where %s order by g %s, v %s", t, cond, map[bool]string{true: "desc", false: "asc"}[d1], map[bool]string{true: "desc", false: "asc"}[d2])
 		ordered, desc = 2, []bool{d1, d2}
+	case 13, 14:
+		// joins on the sharding key with the linked child table, or with the global table
+		switch {
+		case pick == 13 && d.child != "":
+			shape = "join-linked-child"
+			kind := []string{"join", "left join"}[tp.Choose(2)]
+			sql = fmt.Sprintf("select %s.id, %s.%s, c.id, c.v from %s %s %s c on %s.%s = c.%s where %s", t, t, rule.key, t, kind, d.child, t, rule.key, rule.key, cond)
+			if tp.Chance(1, 3) {
+				sql = fmt.Sprintf("select %s.g, count(*), sum(c.v) from %s join %s c on %s.%s = c.%s where %s group by %s.g", t, t, d.child, t, rule.key, rule.key, cond, t)
+			}
+		case d.global != "":
+			shape = "join-global"
+			sql = fmt.Sprintf("select %s.id, %s.v, gt.name from %s join %s gt on %s.g = gt.g where %s", t, t, t, d.global, t, cond)
+			if tp.Chance(1, 3) {
+				sql = fmt.Sprintf("select %s.id, gt.v from %s, %s gt where %s.g = gt.g and (%s)", t, t, d.global, t, cond)
+			}
+		default:
+			shape, sql = "star", fmt.Sprintf("select * from %s where %s", t, cond)
+		}
 	case 10:
 		shape, sql = "aggregates-string", fmt.Sprintf("select max(name), min(name), count(name) from %s where %s", t, cond)
 	case 11:
@@ -460,7 +531,7 @@ func (d *dataWorld) opSelect(tp *simkit.Tape, stats map[string]int) {
 		sql = fmt.Sprintf("select id, g from %s where %s union%s select id, g from %s where %s", t, cond, all, t, d.condition(tp, 2))
 	}
 	var hold []string
-	if !strings.HasPrefix(shape, "union") {
+	if !strings.HasPrefix(shape, "union") && !strings.HasPrefix(shape, "join") {
 		var herr error
 		hold, herr = d.holders(cond)
 		if herr != nil {
@@ -493,7 +564,7 @@ func (d *dataWorld) opSelect(tp *simkit.Tape, stats map[string]int) {
 			}
 		}
 	}
-	if !strings.HasPrefix(shape, "union") && !d.checkRouting("select", sql, cond, hold, o, stats) {
+	if !strings.HasPrefix(shape, "union") && !strings.HasPrefix(shape, "join") && !d.checkRouting("select", sql, cond, hold, o, stats) {
 		return
 	}
 	// C02: the result equals the reference
